@@ -256,48 +256,120 @@ inductive ShapeErr where
   | runtime  -- RuntimeError from broadcasting
   deriving Repr, DecidableEq
 
+/-- Two axis sizes are broadcastable: equal, or one of them is 1. -/
+def compat1 (x y : Nat) : Bool := x == y || x == 1 || y == 1
+
+/-- The size of the broadcast axis. -/
+def pick1 (x y : Nat) : Nat := if x = 1 then y else x
+
+/-- Broadcasting of two shapes given innermost axis first. -/
 def bcastRev : List Nat → List Nat → Option (List Nat)
   | [], ys => some ys
   | xs, [] => some xs
   | x :: xs, y :: ys =>
-    if x = y ∨ x = 1 ∨ y = 1 then
-      (bcastRev xs ys).map (fun r => (if x = 1 then y else x) :: r)
-    else none
+    if compat1 x y then (bcastRev xs ys).map (fun r => pick1 x y :: r) else none
 
 /-- `broadcast_shapes(a, b)` (trailing axes aligned). -/
 def broadcastShapes (a b : List Nat) : Option (List Nat) :=
   (bcastRev a.reverse b.reverse).map List.reverse
 
-def liftB (o : Option (List Nat)) : Except ShapeErr (List Nat) :=
-  match o with
-  | some s => .ok s
-  | none => .error .runtime
-
 /-- The axis of `key` that `dim` names (negative `dim` counts from the end of `key`). -/
 def seqAxis (dim : Int) (keyDim : Nat) : Nat :=
   if dim ≥ 0 then dim.toNat else (dim + keyDim).toNat
 
-/-- `GlobalSoftAttention.check_input` followed by the shape `forward` returns.
-(repaired: `dim == -1` is rejected — the pinned code tests `key_dim == -1`, which never
-holds.) `valueSize = some n` adds `MultiHeadedAttention`'s check of `value.size(-1)`. -/
-def checkInput (querySize keySize : Nat) (valueSize : Option Nat) (dim : Int)
-    (q k v : List Nat) (mask : Option (List Nat)) : Except ShapeErr (List Nat) := do
+/-- `x.unsqueeze(i)` on shapes / indices: a new entry at position `i`. -/
+def insertAt {α : Type} (i : Nat) (x : α) (l : List α) : List α := l.take i ++ [x] ++ l.drop i
+
+/-- `GlobalSoftAttention.check_input`: `ok full`, where `full = (E*, T, F*, D)` is the shape to which
+scores (`query.unsqueeze(dim)` against `key`, last axis dropped), mask and value are jointly
+broadcast.  (repaired: `dim == -1` is rejected — the pinned code tests `key_dim == -1`, which never
+holds.)  `valueSize = some n` adds `MultiHeadedAttention`'s check of `value.size(-1)`. -/
+def checkInputFull (querySize keySize : Nat) (valueSize : Option Nat) (dim : Int)
+    (q k v : List Nat) (mask : Option (List Nat)) : Except ShapeErr (List Nat) :=
   let keyDim := k.length
-  if q.length + 1 ≠ keyDim then throw .value
-  if keyDim ≠ v.length then throw .value
-  if q.getLast? ≠ some querySize then throw .value
-  if k.getLast? ≠ some keySize then throw .value
-  if dim > (keyDim : Int) - 2 ∨ dim = -1 ∨ dim < -(keyDim : Int) + 1 then throw .value
-  let i := seqAxis dim keyDim
-  let qu := q.take i ++ [1] ++ q.drop i
-  let eShape ← liftB (broadcastShapes qu.dropLast k.dropLast)
-  let eShape' ← match mask with
-    | none => pure eShape
-    | some ms => liftB (broadcastShapes eShape ms)
-  let full ← liftB (broadcastShapes (eShape' ++ [1]) v)
-  match valueSize with
-  | some n => if v.getLast? ≠ some n then throw .value
-  | none => pure ()
-  pure (full.eraseIdx i)
+  if q.length + 1 ≠ keyDim then .error .value
+  else if keyDim ≠ v.length then .error .value
+  else if q.getLast? ≠ some querySize then .error .value
+  else if k.getLast? ≠ some keySize then .error .value
+  else if dim > (keyDim : Int) - 2 ∨ dim = -1 ∨ dim < -(keyDim : Int) + 1 then .error .value
+  else
+    match broadcastShapes (insertAt (seqAxis dim keyDim) 1 q).dropLast k.dropLast with
+    | none => .error .runtime
+    | some eShape =>
+      match (match mask with
+        | none => some eShape
+        | some ms => broadcastShapes eShape ms) with
+      | none => .error .runtime
+      | some eShape' =>
+        match broadcastShapes (eShape' ++ [1]) v with
+        | none => .error .runtime
+        | some full =>
+          match valueSize with
+          | none => .ok full
+          | some n => if v.getLast? ≠ some n then .error .value else .ok full
+
+/-- `check_input` followed by the shape `forward` returns: the sequence axis is summed away. -/
+def checkInput (querySize keySize : Nat) (valueSize : Option Nat) (dim : Int)
+    (q k v : List Nat) (mask : Option (List Nat)) : Except ShapeErr (List Nat) :=
+  match checkInputFull querySize keySize valueSize dim q k v mask with
+  | .error err => .error err
+  | .ok full => .ok (full.eraseIdx (seqAxis dim k.length))
+
+/-! ## Tensors: broadcasting and the sequence axis as index arithmetic
+
+A tensor is a shape and a function from multi-indices (one entry per axis) to values.  Torch's
+broadcasting is the index map `bidx`: align the shapes at the LAST axis, read entry 0 along every
+size-1 axis, ignore leading index entries the tensor has no axis for.  `tensorApply` is `forward` at
+tensor level: `check_input`, then for every index of the output the per-element function (`attend`,
+`mhaForward`) applied to what the four argument tensors hold at the broadcast positions, the sequence
+axis being axis `seqAxis dim key.dim()` of key / value / mask. -/
+
+structure Tensor (α : Type) where
+  shape : List Nat
+  val : List Nat → α
+
+/-- Position read along an axis of size `n` when the broadcast index is `i`. -/
+def bpos (n i : Nat) : Nat := if n = 1 then 0 else i
+
+/-- The index at which a tensor of shape `s` is read when it is broadcast to a shape whose
+multi-index is `idx`: shapes are aligned at the LAST axis (`zipWith` on the reversed lists stops at
+the shorter one, so leading entries of `idx` the tensor has no axis for are ignored), a size-1
+axis is read at 0. -/
+def bidx (s idx : List Nat) : List Nat :=
+  (List.zipWith bpos s.reverse idx.reverse).reverse
+
+/-- Reading through broadcasting. -/
+def Tensor.read {α : Type} (t : Tensor α) (idx : List Nat) : α := t.val (bidx t.shape idx)
+
+/-- `t.expand(s)` / `t.broadcast_to(s)`: the explicitly expanded tensor. -/
+def Tensor.expand {α : Type} (t : Tensor α) (s : List Nat) : Tensor α :=
+  { shape := s, val := fun idx => t.read idx }
+
+/-- What one element of the broadcast batch sees: `eidx` indexes `(E*, F*)` (sequence axis removed),
+`i` is the sequence axis, `T` its length, `Q K D` the vector sizes. -/
+def elemAt {κ : Type} (i T Q K D : Nat) (q k v : Tensor κ) (mask : Option (Tensor Bool))
+    (eidx : List Nat) : List κ × List (List κ) × List (List κ) × Option (List Bool) :=
+  ((List.range Q).map (fun j => q.read (eidx ++ [j])),
+   (List.range T).map (fun t => (List.range K).map (fun j => k.read (insertAt i t eidx ++ [j]))),
+   (List.range T).map (fun t => (List.range D).map (fun j => v.read (insertAt i t eidx ++ [j]))),
+   mask.map (fun mt => (List.range T).map (fun t => mt.read (insertAt i t eidx))))
+
+/-- `forward` at tensor level for a per-element function `f` returning `outSize D` numbers
+(`attend …` with `outSize = id`; `mhaForward …` with `outSize = fun _ => out_size`). -/
+def tensorApply {κ : Type} [Zero κ]
+    (f : Nat → List κ → List (List κ) → List (List κ) → Option (List Bool) → List κ)
+    (outSize : Nat → Nat) (querySize keySize : Nat) (valueSize : Option Nat) (dim : Int)
+    (q k v : Tensor κ) (mask : Option (Tensor Bool)) : Except ShapeErr (Tensor κ) :=
+  match checkInputFull querySize keySize valueSize dim q.shape k.shape v.shape
+      (mask.map (·.shape)) with
+  | .error err => .error err
+  | .ok full =>
+    let i := seqAxis dim k.shape.length
+    let T := full.getD i 0
+    let D := full.getLastD 0
+    .ok { shape := (full.eraseIdx i).dropLast ++ [outSize D],
+          val := fun idx =>
+            let el := elemAt i T querySize keySize D q k v mask idx.dropLast
+            (f D el.1 el.2.1 el.2.2.1 el.2.2.2).getD (idx.getLastD 0) 0 }
 
 end PdtVerif.Attention
